@@ -52,6 +52,10 @@ type cacheFacts struct {
 	initUnlockDeferred        bool
 	initedWritersOK           bool
 	poolPutLast               bool
+	nakedTemplatesCopied      bool
+	nakedTemplateUses         int
+	sideResetFirst            bool
+	sideCoderSites            int
 	poolPutSites              int
 	notes                     []string
 	lenInc, hiDst, hiSrc      int
@@ -777,6 +781,102 @@ func (f *cacheFacts) checkPoolPuts(where string, fd *ast.FuncDecl) {
 	}
 }
 
+// checkNakedTemplates: the package-level reflect.Value templates DecodeNaked boxes scalars through
+// (defUnsafeDecNakedWrapper) are shared by every decoder of the process.  Outside init() they may only be COPIED:
+// every mention must be the right-hand side  local = defUnsafe….field  of an assignment to a plain identifier.
+func (f *cacheFacts) checkNakedTemplates(where string, fd *ast.FuncDecl) {
+	if fd.Name.Name == "init" && fd.Recv == nil {
+		return
+	}
+	isTpl := func(e ast.Expr) bool {
+		id, ok := e.(*ast.Ident)
+		return ok && strings.HasPrefix(id.Name, "defUnsafe") && strings.HasSuffix(id.Name, "Wrapper")
+	}
+	okUse := map[*ast.Ident]bool{}
+	ast.Inspect(fd.Body, func(n ast.Node) bool {
+		as, ok := n.(*ast.AssignStmt)
+		if !ok || len(as.Lhs) != len(as.Rhs) {
+			return true
+		}
+		for i := range as.Rhs {
+			se, ok := as.Rhs[i].(*ast.SelectorExpr)
+			if !ok || !isTpl(se.X) {
+				continue
+			}
+			if _, ok := as.Lhs[i].(*ast.Ident); ok {
+				okUse[se.X.(*ast.Ident)] = true
+			}
+		}
+		return true
+	})
+	ast.Inspect(fd.Body, func(n ast.Node) bool {
+		if id, ok := n.(*ast.Ident); ok && isTpl(id) {
+			f.nakedTemplateUses++
+			if !okUse[id] {
+				f.nakedTemplatesCopied = false
+				f.note("%s: the shared template %s is used other than by copying one of its fields into a local", where, id.Name)
+			}
+		}
+		return true
+	})
+}
+
+// checkSideCoderCalls: every callback handed to sideEncode/sideDecode resets the pooled coder before anything else
+// (ResetBytes on its parameter, directly or as the first statement of oneOffEncode/oneOffDecode).
+func (f *cacheFacts) checkSideCoderCalls(where string, fd *ast.FuncDecl) {
+	nm := fd.Name.Name
+	if (nm == "oneOffEncode" || nm == "oneOffDecode") && fd.Recv == nil {
+		f.sideCoderSites++
+		ok := false
+		if len(fd.Body.List) > 0 && fd.Type.Params != nil && len(fd.Type.Params.List) > 0 && len(fd.Type.Params.List[0].Names) > 0 {
+			p0 := fd.Type.Params.List[0].Names[0].Name
+			if es, isE := fd.Body.List[0].(*ast.ExprStmt); isE {
+				if c, isC := es.X.(*ast.CallExpr); isC && cacheCallName(c) == p0+".ResetBytes" {
+					ok = true
+				}
+			}
+		}
+		if !ok {
+			f.sideResetFirst = false
+			f.note("%s: first statement is not <coder>.ResetBytes(...)", where)
+		}
+		return
+	}
+	ast.Inspect(fd.Body, func(n ast.Node) bool {
+		c, ok := n.(*ast.CallExpr)
+		if !ok {
+			return true
+		}
+		cn := cacheCallName(c)
+		if cn != "sideEncode" && cn != "sideDecode" {
+			return true
+		}
+		f.sideCoderSites++
+		good := false
+		if len(c.Args) == 3 {
+			if fl, ok := c.Args[2].(*ast.FuncLit); ok && len(fl.Body.List) > 0 && len(fl.Type.Params.List) == 1 && len(fl.Type.Params.List[0].Names) == 1 {
+				p0 := fl.Type.Params.List[0].Names[0].Name
+				if es, ok := fl.Body.List[0].(*ast.ExprStmt); ok {
+					if c2, ok := es.X.(*ast.CallExpr); ok {
+						fn2 := cacheCallName(c2)
+						if fn2 == p0+".ResetBytes" {
+							good = true
+						}
+						if (fn2 == "oneOffEncode" || fn2 == "oneOffDecode") && len(c2.Args) > 0 && cacheExprStr(c2.Args[0]) == p0 {
+							good = true
+						}
+					}
+				}
+			}
+		}
+		if !good {
+			f.sideResetFirst = false
+			f.note("%s: callback of %s does not start by resetting the pooled coder", where, cn)
+		}
+		return true
+	})
+}
+
 func (f *cacheFacts) checkInit(fns map[string]*ast.FuncDecl, all []*ast.FuncDecl) {
 	ih, ih2 := fns["initHandle"], fns["initHandle2"]
 	if ih == nil || ih2 == nil {
@@ -922,7 +1022,7 @@ func genCache(p *pkgInfo) (string, string, error) {
 	}
 	f := &cacheFacts{noInplace: true, storeFresh: true, storeLast: true, recheck: true, lockBalanced: true,
 		noForeignUnderLock: true, storeSitesOnlyLoaders: true, entryKeyed: true,
-		initDoubleChecked: true, initFlagStoreLast: true, initUnlockDeferred: true, initedWritersOK: true, poolPutLast: true}
+		initDoubleChecked: true, initFlagStoreLast: true, initUnlockDeferred: true, initedWritersOK: true, poolPutLast: true, nakedTemplatesCopied: true, sideResetFirst: true}
 	var firstErr error
 	keep := func(err error) {
 		if err != nil && firstErr == nil {
@@ -941,6 +1041,8 @@ func genCache(p *pkgInfo) (string, string, error) {
 			byName[nm] = fd
 		}
 		f.checkPoolPuts(where, fd)
+		f.checkNakedTemplates(where, fd)
+		f.checkSideCoderCalls(where, fd)
 		if recv == "atomicRtidFnSlice" || cachePrimitive[nm] {
 			continue // the atomic primitives themselves
 		}
@@ -1016,6 +1118,8 @@ func genCache(p *pkgInfo) (string, string, error) {
 	fmt.Fprintf(&b, "(* initHandle: atomic load of inited, then initHandle2: Lock, re-check, init, atomic store as the last statement, deferred Unlock *)\nDefinition init_double_checked : bool := %s.\nDefinition init_flag_store_last : bool := %s.\nDefinition init_unlock_deferred : bool := %s.\nDefinition inited_writers_ok : bool := %s.\n\n",
 		cacheB2c(f.initDoubleChecked), cacheB2c(f.initFlagStoreLast), cacheB2c(f.initUnlockDeferred), cacheB2c(f.initedWritersOK))
 	fmt.Fprintf(&b, "(* sync.Pool users (sideEncode, sideDecode, ...): every Put is deferred or is the last use of the object *)\nDefinition pool_put_after_last_use : bool := %s.\nDefinition pool_put_sites : nat := %d.\n\n", cacheB2c(f.poolPutLast), f.poolPutSites)
+	fmt.Fprintf(&b, "(* the package-level reflect.Value templates of DecodeNaked are only ever copied (local = template.field) outside init() *)\nDefinition naked_templates_copied : bool := %s.\nDefinition naked_template_uses : nat := %d.\n", cacheB2c(f.nakedTemplatesCopied), f.nakedTemplateUses)
+	fmt.Fprintf(&b, "(* every user of a pooled side encoder/decoder resets it (ResetBytes) before anything else *)\nDefinition side_coder_reset_first : bool := %s.\nDefinition side_coder_sites : nat := %d.\n\n", cacheB2c(f.sideResetFirst), f.sideCoderSites)
 	b.WriteString("(* sorted insert: sp2 := make(T, len(sp)+ins_len_inc); copy(sp2[idx+ins_hi_dst:], sp[idx+ins_hi_src:]); copy(sp2[ins_lo_dst:], sp[:idx]); sp2[idx+ins_set] = e *)\n")
 	fmt.Fprintf(&b, "Definition ins_len_inc : nat := %d.\nDefinition ins_hi_dst : nat := %d.\nDefinition ins_hi_src : nat := %d.\nDefinition ins_lo_dst : nat := %d.\nDefinition ins_set : nat := %d.\n\n", f.lenInc, f.hiDst, f.hiSrc, f.loDst, f.setOff)
 	b.WriteString("(* binary search: h = (i+j) >> find_shift; if s[h].rtid < k then i = h + find_lo_inc else j = h; found iff i < len && s[i].rtid == k *)\n")
